@@ -2,7 +2,8 @@
 import warnings
 from hypothesis import strategies as st
 
-from amaranth.hdl import Module, ClockDomain, Signal, Cat, Fragment, IOPort, Value
+from amaranth.hdl import Module, ClockDomain, Signal, Cat, Fragment, IOPort, Value, ResetInserter, EnableInserter
+from amaranth.back import rtlil
 from amaranth.hdl._ir import build_netlist, DriverConflict
 from amaranth.hdl import _nir as nir
 from amaranth.lib import io
@@ -11,6 +12,7 @@ from amaranth.sim import Simulator
 from vlib.reuse import elaborated_before
 from vlib.runner import Part, Mismatch, HarnessError
 from vlib.gen_expr import INT, BOOL, PICK
+from vlib import rtlil_read as RR, rtlil_check as RC, rtlil_eval as RE
 
 PID = "C18"
 LEVEL = "exploration"
@@ -372,12 +374,21 @@ def real_cases(draw):
     free = list(range(len(bases)))
     # with reuse, one port expression may name the same pad bit twice (port[0:2] + port[1:3]): to be refused
     e = draw_expr(draw, bases, free, draw(INT(0, 4)), reuse=draw(INT(0, 3)) == 0)
+    if draw(INT(0, 7)) == 0:
+        # directly: two pieces of one port that share a bit, joined with +
+        b = draw(INT(0, len(bases) - 1))
+        if bases[b]["w"] >= 1:
+            w = bases[b]["w"]
+            m_ = draw(INT(0, w - 1))
+            e = ["add", ["slice", ["base", b], [None, m_ + 1, None]], ["slice", ["base", b], [m_, None, None]]]
+            if draw(BOOL):
+                e = ["add", ["base", b], ["inv", ["base", b]]]
     second = None
     if draw(INT(0, 2)) == 0:
         second = [draw(INT(0, len(bases) - 1)), draw(BOOL), PICK(draw, DIRS)]
     return {"kind": kind, "bases": bases, "expr": e, "buf": PICK(draw, DIRS), "second": second,
             "o": draw(INT(0, 2 ** 12 - 1)), "oe": draw(INT(0, 1)), "pads": draw(INT(0, 2 ** 18 - 1)),
-            "ff": draw(INT(0, 3)) == 0}
+            "ff": draw(INT(0, 3)) == 0, "wrap": PICK(draw, [None, None, "R", "E"])}
 
 
 def eval_net(nl, net, env, memo):
@@ -431,8 +442,11 @@ def real_body(ctx, case):
             raise Mismatch("buffer-accepted-on-incompatible-port", port_direction=pd, buffer_direction=bd)
         m = Module()
         m.domains.sync = ClockDomain()
-        m.submodules.buf = buf
-        top_ports = []
+        ctl = Signal(name="ctl")
+        wrap = case.get("wrap") if not case["ff"] else None
+        # a control inserter around a combinational buffer changes nothing (it has no state), the buffer included
+        m.submodules.buf = (ResetInserter(ctl)(buf) if wrap == "R" else EnableInserter(ctl)(buf) if wrap == "E" else buf)
+        top_ports = [ctl] if wrap else []
         if bd != "i": top_ports += [buf.o, buf.oe]
         if bd != "o": top_ports += [buf.i]
         overlap = self_overlap = len({(b, k) for b, k, _ in bits}) < len(bits)
@@ -521,6 +535,38 @@ def real_body(ctx, case):
                             if got != exp:
                                 raise Mismatch("fabric-input", bit=j, pad=(padbits >> j) & 1, inverted=inv, expected=exp, actual=got)
             ctx.tally("real:netlist-evaluated")
+            if wrap: ctx.tally("real:buffer-under-control-inserter")
+            # ---- the same through the emitted RTLIL: which pad bits the buffer is attached to
+            text = rtlil.convert(m, ports=top_ports)
+            try:
+                design = RR.parse(text)
+            except (RR.RTLILSyntaxError, RR.UnknownWire, RR.SliceOutOfBounds) as e_:
+                raise Mismatch("rtlil-does-not-parse", error=str(e_)[:300], expr=e)
+            probs = RC.check(design, partly_used_pads={"\\" + pt.name for pt in iops + ions})
+            if probs:
+                raise Mismatch("rtlil-not-well-formed", problems=probs[:4], expr=e)
+            ev = RE.Evaluator(design)
+            pname = lambda b_: "\\" + (f"pad{b_}")
+            if bd == "i":
+                vals = {}
+                for j, (b_, k_, inv) in enumerate(bits):
+                    vals[pname(b_)] = vals.get(pname(b_), 0) | (((padbits >> j) & 1) << k_)
+                ev.set_inputs(vals)
+                got, gx = ev.get(("\\i",))
+                exp = 0
+                for j, (b_, k_, inv) in enumerate(bits):
+                    exp |= (((padbits >> j) & 1) ^ int(inv)) << j
+                if gx or got != exp:
+                    raise Mismatch("rtlil-fabric-input", expr=e, expected=exp, actual=got, undefined=gx)
+            elif oe:
+                ev.set_inputs({"\\o": o, "\\oe": 1})
+                for j, (b_, k_, inv) in enumerate(bits):
+                    pv, px = ev.get((pname(b_),))
+                    want = ((o >> j) & 1) ^ int(inv)
+                    if (px >> k_) & 1 or (pv >> k_) & 1 != want:
+                        raise Mismatch("rtlil-pad-drive", expr=e, bit=j, pad=[b_, k_], expected=want, actual=(pv >> k_) & 1,
+                                       undefined=(px >> k_) & 1)
+            ctx.tally("real:rtlil-evaluated")
     keys = ["real:" + case["kind"], "real:buf-" + bd]
     mask_mixed = len({v for _, _, v in bits}) == 2
     if mask_mixed: keys.append("real:mixed-mask")
@@ -542,4 +588,4 @@ REQUIRED = ["sim:buf-i", "sim:buf-o", "sim:buf-io", "sim:port-io", "sim:mixed-ma
             "sim:negative-index", "sim:stepped-slice", "sim:buffer-direction-refused", "sim:expression-rejected",
             "ff:buf-i", "ff:buf-o", "ff:buf-io", "ff:mixed-mask", "ff:coincident-edges",
             "real:single", "real:diff", "real:buf-io", "real:mixed-mask", "real:ops>=2", "real:overlap-rejected", "real:overlap-within-one-expression-rejected",
-            "real:two-disjoint-buffers", "real:netlist-evaluated"]
+            "real:two-disjoint-buffers", "real:netlist-evaluated", "real:rtlil-evaluated", "real:buffer-under-control-inserter"]
